@@ -118,6 +118,44 @@ class HangError(BaseException):
     pass
 
 
+_DEDUP_BODY = '''
+    run = _tls.run if shared else me_run
+    t = run.obj_id[id(_sched.get_active_task())]
+    gen = run._interp(t)
+    v = exc = None
+    while True:          # manual delegation: `yield from` would turn a thrown GeneratorExit-family error into close()
+        try:
+            y = gen.send(v) if exc is None else gen.throw(exc)
+        except StopIteration as si:
+            return si.value
+        try:
+            v = yield y
+            exc = None
+        except GeneratorExit as ge:
+            if type(ge) is GeneratorExit:
+                gen.close()
+                raise
+            exc = ge
+        except BaseException as e:
+            exc = e
+'''
+
+_DEDUP_SRC = ('''
+@dd
+@asynq.asynq()
+def dfn({sig}):''' + _DEDUP_BODY + '''
+
+class DHolder(object):
+    @dd
+    @asynq.asynq()
+    def dm(self, {sig}):''' + _DEDUP_BODY.replace("\n    ", "\n        ") + '''
+
+    @dd
+    @asynq.asynq()
+    @staticmethod
+    def ds({sig}):''' + _DEDUP_BODY.replace("\n    ", "\n        ") + "\n")
+
+
 class Run(object):
     def __init__(self, prog, schedule=None, tiebreak_seed=None, options=None, shared_dfns=None):
         self.prog = prog
@@ -337,6 +375,9 @@ class Run(object):
     def spelling(d):
         """the same key, written in different ways (positional / keyword / default): dfn(a=1, b=0)"""
         k, sp = -d["key"], d.get("spell", 0)      # keys -1, -2: hash(-1) == hash(-2) in CPython
+        if d["fn"] > 10:
+            # (a=-1, *rest, b=0): two surplus positionals; the keyword-only default spelled out or left out
+            return ((k, 7, ("b", 0)), {}) if sp % 2 == 0 else ((k, 7, ("b", 0)), {"b": 0})
         if sp == 0:
             return (k,), {}
         if sp == 1:
@@ -476,86 +517,16 @@ class Run(object):
 
     # -- task bodies -----------------------------------------------------------------------------
     def _make_dedup_fn(self, g, shared=False):
+        """the deduplicated function number g, as a plain function, as a method of two instances and as a static method:
+        ONE deduplicate() decorator object applied to all of them.  g <= 10: signature (a=-1, b=0); g > 10: signature
+        (a=-1, *rest, b=0) - extra positionals and a keyword-only parameter with a default (see spelling())."""
         from asynq.tools import deduplicate
         me_run = self
-
-        dd = deduplicate()      # ONE decorator object, applied to functions with different signatures
-
-        @dd
-        @asynq.asynq()
-        def dfn(a=-1, b=0):
-            run = _tls.run if shared else me_run
-            me = _sched.get_active_task()
-            t = run.obj_id[id(me)]
-            gen = run._interp(t)
-            v = exc = None
-            while True:          # manual delegation: `yield from` would turn a thrown GeneratorExit-family error into close()
-                try:
-                    y = gen.send(v) if exc is None else gen.throw(exc)
-                except StopIteration as si:
-                    return si.value
-                try:
-                    v = yield y
-                    exc = None
-                except GeneratorExit as ge:
-                    if type(ge) is GeneratorExit:
-                        gen.close()
-                        raise
-                    exc = ge
-                except BaseException as e:
-                    exc = e
-
+        sig = "a=-1, b=0" if g <= 10 else "a=-1, *rest, b=0"
+        ns = {"dd": deduplicate(), "asynq": asynq, "_sched": _sched, "_tls": _tls, "shared": shared, "me_run": me_run}
+        exec(_DEDUP_SRC.replace("{sig}", sig), ns)
+        dfn, DHolder = ns["dfn"], ns["DHolder"]
         dfn.__name__ = "dfn%d" % g
-
-        # the same deduplicated body as an instance method (two instances) and as a static method
-        class DHolder(object):
-            @dd
-            @asynq.asynq()
-            def dm(self, a=-1, b=0):
-                run = _tls.run if shared else me_run
-                t = run.obj_id[id(_sched.get_active_task())]
-                gen = run._interp(t)
-                v = exc = None
-                while True:          # manual delegation: `yield from` would turn a thrown GeneratorExit-family error into close()
-                    try:
-                        y = gen.send(v) if exc is None else gen.throw(exc)
-                    except StopIteration as si:
-                        return si.value
-                    try:
-                        v = yield y
-                        exc = None
-                    except GeneratorExit as ge:
-                        if type(ge) is GeneratorExit:
-                            gen.close()
-                            raise
-                        exc = ge
-                    except BaseException as e:
-                        exc = e
-
-            @dd
-            @asynq.asynq()
-            @staticmethod
-            def ds(a=-1, b=0):
-                run = _tls.run if shared else me_run
-                t = run.obj_id[id(_sched.get_active_task())]
-                gen = run._interp(t)
-                v = exc = None
-                while True:          # manual delegation: `yield from` would turn a thrown GeneratorExit-family error into close()
-                    try:
-                        y = gen.send(v) if exc is None else gen.throw(exc)
-                    except StopIteration as si:
-                        return si.value
-                    try:
-                        v = yield y
-                        exc = None
-                    except GeneratorExit as ge:
-                        if type(ge) is GeneratorExit:
-                            gen.close()
-                            raise
-                        exc = ge
-                    except BaseException as e:
-                        exc = e
-
         h1, h2 = DHolder(), DHolder()
         me_run.keep += [h1, h2]
         return {"fn": dfn, "inst1": h1.dm, "inst2": h2.dm, "static": DHolder.ds}
